@@ -8,8 +8,8 @@ The variant must still compile (the check's own `cargo check` fails otherwise an
 M = []
 
 
-def m(id, prop, file, old, new, expect, note, tier='quick', reverse_of=None):
-    M.append(dict(id=id, prop=prop, file=file, old=old, new=new, expect=expect, note=note, tier=tier, reverse_of=reverse_of))
+def m(id, prop, file, old, new, expect, note, tier='quick', reverse_of=None, also=()):
+    M.append(dict(id=id, prop=prop, file=file, old=old, new=new, expect=expect, note=note, tier=tier, reverse_of=reverse_of, also=list(also)))
 
 
 # ---------------------------------------------------------------- C01
@@ -346,3 +346,7 @@ m('ctrl-zip-ref', 'C02', 'track/main.rs',
 m('ctrl-silence-helper', 'C03', 'sound/streaming/sound.rs',
   '\t\tif !self.playback_state_manager.playback_state().is_advancing() {\n\t\t\tout.fill(Frame::ZERO);\n\t\t\treturn;\n\t\t}',
   '\t\tif !self.playback_state_manager.playback_state().is_advancing() {\n\t\t\tfor frame in out.iter_mut() {\n\t\t\t\t*frame = Frame::ZERO;\n\t\t\t}\n\t\t\treturn;\n\t\t}', 'NONE', 'fill rewritten as an explicit loop (behaviour-preserving, other idiom)')
+
+m('ctrl-rename-pc', 'C01', 'backend/renderer.rs', 'process_chunk', 'render_chunk', 'NONE', 'a private method is renamed (all occurrences)')
+m('ctrl-rename-fld', 'C02', 'track/main.rs', 'temp_buffer', 'scratch', 'NONE', 'a private field is renamed (all occurrences)', also=[('track/main/builder.rs', 'temp_buffer', 'scratch')])
+m('ctrl-rename-psm', 'C03', 'playback_state_manager.rs', 'volume_fade', 'fade', 'NONE', 'a private field is renamed (all occurrences)')
